@@ -12,9 +12,9 @@ PROPS = {
         "assumptions": [],
         "clauses_not_decided": [
             "reply built by DhtNetworkManager::find_closest_nodes_local / handle_lookup_request (async, needs live transport)",
-            "protocol caps inside DhtCoreEngine::handle_request (async engine; Kani ICE)",
+            "DhtCoreEngine::handle_request is verified in its await-erased form (both awaits are tokio RwLock acquisitions: data store, routing table; the guarded objects became parameters): sequential semantics under the two guards, no interleaving between them is explored",
         ],
-        "explanation": "Contracts on DhtKey::distance, KademliaRoutingTable::{get_bucket_index,get_bucket_index_for_key,add_node,remove_node,find_closest_nodes}.",
+        "explanation": "Contracts on DhtKey::distance, KBucket::{new, add_node, remove_node, get_nodes}, KademliaRoutingTable::{new, get_bucket_index, get_bucket_index_for_key, add_node, remove_node, find_closest_nodes}; the reply built by DhtCoreEngine::handle_request (await-erased) for FindNode is exactly find_closest_nodes(target, min(count, 20)) and never names more than 20 nodes, for FindValue it names at most K = 8 closest entries (none when the value is held); DataStore::{put, get} verified on the real field layout; DhtNetworkManager::{compare_node_distance, filter_response_nodes}.",
         "jobs": {"quick": 6, "thorough": 6},
     },
     "C04": {
@@ -34,7 +34,7 @@ PROPS = {
         "jobs": {"quick": 2, "thorough": 2},
     },
     "C05": {
-        "verus_units": ["inbound"],
+        "verus_units": ["inbound", "bucket"],
         "trusted": COMMON_TRUSTED,
         "assumptions": [
             "postcard decoders/encoders are total functions (value or error): that they return normally for every byte string is NOT verified (dependency; a bounded Kani run of the decoders was not tractable in this sandbox)",
@@ -42,10 +42,11 @@ PROPS = {
         ],
         "clauses_not_decided": [
             "no-panic / bounded allocation of the postcard decoders themselves for all byte strings up to 128 KiB",
-            "the 64 KiB guard in DhtNetworkManager::handle_dht_message, the find-node count cap and the store-path size checks in DhtCoreEngine::handle_request (inside async methods of objects that need a transport / trip a Kani ICE)",
+            "the 64 KiB guard in DhtNetworkManager::handle_dht_message (inside an async method of an object that needs a transport)",
+            "DhtCoreEngine::handle_request is verified in its await-erased form (both awaits are tokio RwLock acquisitions); DataStore access counters are assumed below u64::MAX (2^64 reads of one key would overflow `access_count += 1`: a debug-build panic, wrap-around in release)",
             "TransportHandle::parse_request_envelope (decode-only wrapper; nothing to decide beyond the decoder's totality)",
         ],
-        "explanation": "Verus proves on the mechanically extracted text of network::parse_protocol_message, DhtRecord::{deserialize, serialize} and DhtNetworkManager::validate_put_value_size: a framed message is surfaced iff it decodes and its timestamp is within [now-300, now+30]; the surfaced source is the identity passed in by the transport (never the payload's `from`), topic and data come from the frame; records over 512 bytes are refused and the decoder is never entered with more (precondition of the decoder shim); serialised records are at most 512 bytes; stored values are at most 512 bytes.",
+        "explanation": "Verus proves on the mechanically extracted text of network::parse_protocol_message, DhtRecord::{deserialize, serialize} and DhtNetworkManager::validate_put_value_size: a framed message is surfaced iff it decodes and its timestamp is within [now-300, now+30]; the surfaced source is the identity passed in by the transport (never the payload's `from`), topic and data come from the frame; records over 512 bytes are refused and the decoder is never entered with more (precondition of the decoder shim); serialised records are at most 512 bytes; stored values are at most 512 bytes. In the shared unit `bucket` (only the functions C05 depends on are extracted for this check): DhtCoreEngine::handle_request, await-erased, refuses a Store whose value is over 512 bytes and leaves the store unchanged, changes the store on no other request, answers Retrieve with exactly the stored bytes, and caps a FindNode reply at 20 names whatever count is asked; DataStore::{put, get} store and return exactly the given bytes.",
         "jobs": {"quick": 4, "thorough": 4},
     },
     "C09": {
